@@ -35,6 +35,8 @@ type c03Case struct {
 	Kind   string       `json:"kind"`   // how the probe bytes were made
 	Script vconn.Script `json:"script"` // the probe (End is always "hold": the prober never closes)
 	Total  int          `json:"total_bytes"`
+	PeerClass string    `json:"peer_class,omitempty"` // address class of the prober's source address (Script.Remote), see c03PeerGen
+	Geo     *c03GeoAns  `json:"geo,omitempty"`    // what the station's GeoIP database answers for that source (nil: the environment's default stand-in)
 	SweepAt int         `json:"sweep_at,omitempty"` // > 0: before the SweepAt-th segment is read every registration passes its lifetime and the sweeper runs (the phantom has none left while the connection is still open)
 }
 
@@ -191,14 +193,151 @@ func c03Gen(rt *rapid.T, e *aEnv) c03Case {
 		steps = append(steps, st)
 		rest = rest[k:]
 	}
-	c.Script = vconn.Script{Reads: steps, End: "hold", Remote: "203.0.113.77:5555"}
-	if c.V6 {
-		c.Script.Remote = "[2001:db8::77]:5555"
-	}
+	c.Script = vconn.Script{Reads: steps, End: "hold"}
+	// who is probing: the property holds for a connection from anywhere, so the source address (and
+	// what the GeoIP database knows about it) is drawn like the rest of the case
+	c.Script.Remote, c.PeerClass = c03PeerGen(rt, c.V6, "peer")
+	c.Geo = c03GeoGen(rt, "geo")
 	if len(steps) > 1 && rapid.IntRange(0, 3).Draw(rt, "sweepmid") == 0 {
 		c.SweepAt = rapid.IntRange(1, len(steps)-1).Draw(rt, "sweepat")
 	}
 	return c
+}
+
+// c03GeoAns is the answer of the station's GeoIP database for the prober's source address.
+type c03GeoAns struct {
+	CC  string `json:"cc"` // "" = record without a country (what MaxMind has for special-purpose space), "unk" = no record
+	ASN uint   `json:"asn"`
+}
+
+func (g c03GeoAns) class() string {
+	switch g.CC {
+	case "":
+		return "geo:no-country"
+	case "unk":
+		return "geo:no-record"
+	}
+	return "geo:country"
+}
+
+func c03GeoText(g *c03GeoAns) string {
+	if g == nil {
+		return ""
+	}
+	return fmt.Sprintf(", GeoIP answer cc=%q asn=%d", g.CC, g.ASN)
+}
+
+type c03PeerGeo struct{ a c03GeoAns }
+
+func (g c03PeerGeo) CC(net.IP) (string, error) { return g.a.CC, nil }
+func (g c03PeerGeo) ASN(net.IP) (uint, error)  { return g.a.ASN, nil }
+
+func c03GeoGen(rt *rapid.T, label string) *c03GeoAns {
+	return &c03GeoAns{
+		CC:  rapid.SampledFrom([]string{"US", "CN", "IR", "", "", "unk", "unk"}).Draw(rt, label+"_cc"),
+		ASN: rapid.SampledFrom([]uint{0, 0, 64512, 4134, 65535, 4294967295}).Draw(rt, label+"_asn"),
+	}
+}
+
+// c03UseGeo installs the case's GeoIP answer in the environment; the returned function restores it.
+func c03UseGeo(e *aEnv, g *c03GeoAns) func() {
+	if g == nil {
+		return func() {}
+	}
+	old := e.rm.GeoIP
+	e.rm.GeoIP = c03PeerGeo{a: *g}
+	return func() { e.rm.GeoIP = old }
+}
+
+// Address blocks a TCP peer's source address can lie in, as the station sees it, by class. The
+// class says nothing about how the station has to behave (it has to behave the same for all of
+// them); it only makes sure every kind of source is among the generated cases.
+type c03PeerBlock struct {
+	class string
+	cidr  string
+}
+
+var c03PeerBlocks4 = []c03PeerBlock{
+	{"public", "203.0.113.0/24"}, {"public", "1.1.1.0/24"}, {"public", "93.184.216.0/24"}, {"public", "223.0.0.0/8"}, {"public", "151.101.0.0/16"},
+	{"private-use", "10.0.0.0/8"}, {"private-use", "172.16.0.0/12"}, {"private-use", "192.168.0.0/16"},
+	{"shared-cgnat", "100.64.0.0/10"},
+	{"loopback", "127.0.0.0/8"},
+	{"link-local", "169.254.0.0/16"},
+	{"special-purpose", "198.18.0.0/15"}, {"special-purpose", "192.0.0.0/24"}, {"special-purpose", "192.0.2.0/24"}, {"special-purpose", "240.0.0.0/5"},
+}
+
+var c03PeerBlocks6 = []c03PeerBlock{
+	{"public", "2001:db8::/32"}, {"public", "2a00::/12"}, {"public", "2600::/12"}, {"public", "2400::/12"},
+	{"private-use", "fc00::/8"}, {"private-use", "fd00::/8"}, {"private-use", "fd12:3456:789a::/48"},
+	{"loopback", "::1/128"},
+	{"link-local", "fe80::/64"},
+	{"special-purpose", "2002::/16"}, {"special-purpose", "2001::/32"}, {"special-purpose", "64:ff9b::/96"}, {"special-purpose", "100::/64"},
+}
+
+// c03PeerGen draws the prober's source address "ip:port" of the phantom's family: a block, then
+// the first / last / a random address of it, or (class "block-neighbour") the address just below /
+// just above the block; and a source port.
+func c03PeerGen(rt *rapid.T, v6 bool, label string) (remote, class string) {
+	blocks := c03PeerBlocks4
+	if v6 {
+		blocks = c03PeerBlocks6
+	}
+	b := rapid.SampledFrom(blocks).Draw(rt, label+"_block")
+	_, nw, err := net.ParseCIDR(b.cidr)
+	if err != nil {
+		rt.Fatalf("harness problem: %v", err)
+	}
+	base := nw.IP
+	n := len(base)
+	first := append(net.IP(nil), base...)
+	last := append(net.IP(nil), base...)
+	for i := range last {
+		last[i] |= ^nw.Mask[i]
+	}
+	step := func(ip net.IP, d int) net.IP { // ip+1 / ip-1 (wraps)
+		out := append(net.IP(nil), ip...)
+		for i := n - 1; i >= 0; i-- {
+			if d > 0 {
+				out[i]++
+				if out[i] != 0 {
+					break
+				}
+			} else {
+				out[i]--
+				if out[i] != 0xff {
+					break
+				}
+			}
+		}
+		return out
+	}
+	var ip net.IP
+	class = b.class
+	switch rapid.SampledFrom([]string{"random", "random", "random", "first", "last", "below", "above"}).Draw(rt, label+"_where") {
+	case "first":
+		ip = first
+	case "last":
+		ip = last
+	case "below":
+		ip, class = step(first, -1), "block-neighbour"
+	case "above":
+		ip, class = step(last, +1), "block-neighbour"
+	default:
+		host := rapid.SliceOfN(rapid.Byte(), n, n).Draw(rt, label+"_host")
+		ip = append(net.IP(nil), base...)
+		for i := range ip {
+			ip[i] |= host[i] & ^nw.Mask[i]
+		}
+	}
+	if ip.IsUnspecified() || ip.IsMulticast() || ip.Equal(net.IPv4bcast) {
+		// not a possible source of a TCP connection (only reachable as a neighbour of a block)
+		ip, class = first, b.class
+	}
+	port := rapid.SampledFrom([]int{1, 22, 80, 443, 1023, 1024, 5555, 32768, 49152, 61000, 65535, 0}).Draw(rt, label+"_port")
+	if port == 0 {
+		port = rapid.IntRange(1, 65535).Draw(rt, label+"_anyport")
+	}
+	return net.JoinHostPort(ip.String(), fmt.Sprint(port)), class
 }
 
 func c03DropTwins(regs []aRegSpec, spec aRegSpec) []aRegSpec {
@@ -282,6 +421,10 @@ func c03Oracle(conn *vconn.Conn, returned bool, panicked any, realDur time.Durat
 			return "wrote-bytes", "station called Write on an unauthenticated peer", nil
 		}
 	}
+	if firstDL < 0 && firstRead < 0 && conn.VNow() < lower && realDur < lower {
+		// the handler gave the connection up at once: no deadline, no read, returned
+		return "early-return", fmt.Sprintf("handler returned (=> close) after %v virtual / %v real (< 5 s) without setting a deadline or reading anything", conn.VNow(), realDur), nil
+	}
 	if firstDL < 0 || (firstRead >= 0 && firstDL > firstRead) {
 		return "deadline-not-first", "no classification deadline was set before the first read", nil
 	}
@@ -316,6 +459,20 @@ func minInt(a, b int) int {
 	return b
 }
 
+// c03PeerClasses: class labels for the source of the probe.
+func c03PeerClasses(c c03Case, onPhantom int) (out []string) {
+	if c.PeerClass != "" {
+		out = append(out, "peer:"+c.PeerClass)
+		if onPhantom > 0 {
+			out = append(out, "peer:"+c.PeerClass+":phantom-with-registrations")
+		}
+	}
+	if c.Geo != nil {
+		out = append(out, c.Geo.class())
+	}
+	return out
+}
+
 func c03Check(t vh.Fataler, rec *vh.Rec, e *aEnv, c c03Case) {
 	ne, err := c03Setup(e, c)
 	if err != nil {
@@ -327,6 +484,10 @@ func c03Check(t vh.Fataler, rec *vh.Rec, e *aEnv, c c03Case) {
 		script.Reads[c.SweepAt].Hook = "sweep"
 	}
 	conn := vconn.New(script)
+	if script.Remote != "" && conn.RemoteAddr().String() != script.Remote {
+		t.Fatalf("harness problem: the scripted connection reports peer %s, the case says %s", conn.RemoteAddr(), script.Remote)
+	}
+	defer c03UseGeo(ne, c.Geo)()
 	swept := false
 	conn.OnHook = func(string) {
 		cj.VerifShiftTimes(ne.rm, 7*time.Hour)
@@ -338,6 +499,7 @@ func c03Check(t vh.Fataler, rec *vh.Rec, e *aEnv, c c03Case) {
 	ok, pan, dur := ne.aRunHandler(conn, ph, 40*time.Second)
 	key, msg, classes := c03Oracle(conn, ok, pan, dur)
 	classes = append(classes, "kind:"+c.Kind)
+	classes = append(classes, c03PeerClasses(c, onPhantom)...)
 	if onPhantom == 0 {
 		classes = append(classes, "no-reg-drain")
 	} else if c.Total >= 8192 {
@@ -354,14 +516,15 @@ func c03Check(t vh.Fataler, rec *vh.Rec, e *aEnv, c c03Case) {
 		t.Fatalf("harness problem: %s", msg)
 	}
 	if key != "" {
-		rec.Violation(t, key, c, "%s (probe kind %s, %d bytes, %d regs on phantom)", msg, c.Kind, c.Total, onPhantom)
+		rec.Violation(t, key, c, "%s (probe kind %s, %d bytes, %d regs on phantom, from %s [%s])", msg, c.Kind, c.Total, onPhantom, conn.RemoteAddr(), c.PeerClass+c03GeoText(c.Geo))
 	}
 }
 
 func TestVerif_C03_probes(t *testing.T) {
-	rec := vh.NewRec("C03", "probes", "rapid-generated probe streams (random / look-alike / static prefix + garbage / genuine flight with one bit flipped / genuine flight for another phantom, an unvalidated or an unknown registration / >=8192 random bytes) with drawn segmentation and virtual pauses against drawn registries, in a quarter of the multi-segment cases every registration expires and is swept between two segments; non-trivial = probe of >=32 bytes against a phantom that has registrations; distinct by whole case")
+	rec := vh.NewRec("C03", "probes", "rapid-generated probe streams (random / look-alike / static prefix + garbage / genuine flight with one bit flipped / genuine flight for another phantom, an unvalidated or an unknown registration / >=8192 random bytes) with drawn segmentation and virtual pauses against drawn registries, from a drawn source address (public, private-use, shared, loopback, link-local and special-purpose blocks of the phantom's family: first / last / random address of the block and the addresses just outside it; drawn source port) about which the GeoIP database gives a drawn answer (country, no country, no record; AS number), in a quarter of the multi-segment cases every registration expires and is swept between two segments; non-trivial = probe of >=32 bytes against a phantom that has registrations; distinct by whole case")
 	defer rec.Flush()
 	rec.Require("no-reg-drain", "ran-out-of-transports-drain", "read-loop-timeout", "kind:flip-genuine", "kind:wrong-phantom", "kind:unvalidated", "kind:static+garbage", "registrations-swept-during-connection")
+	rec.Require("peer:public:phantom-with-registrations", "peer:private-use", "peer:private-use:phantom-with-registrations", "peer:shared-cgnat", "peer:loopback", "peer:link-local", "peer:special-purpose", "peer:block-neighbour", "geo:country", "geo:no-country", "geo:no-record")
 	defer aSilenceStdout()()
 	e := aNewEnv(t)
 	if p := vh.ReplayFile(); p != "" {
@@ -526,7 +689,7 @@ func c03TCPPair(v6 bool) (cli, srv net.Conn, err error) {
 }
 
 func TestVerif_C03_realtime(t *testing.T) {
-	rec := vh.NewRec("C03", "realtime", "probes from the 'probes' generator (without pauses) written segment by segment into a net.Pipe or (every second case) a real loopback TCP connection whose other end is handed to handleNewTCPConn, all running concurrently in real time; oracle: handler returns after >= 5 s and <= 12 s, the prober receives nothing - no byte, no FIN, no RST - before 5 s; non-trivial as in 'probes'; distinct by case")
+	rec := vh.NewRec("C03", "realtime", "probes from the 'probes' generator (without pauses) written segment by segment into a net.Pipe (whose station end reports the case's drawn source address) or (every second case) a real loopback TCP connection whose other end is handed to handleNewTCPConn, all running concurrently in real time; oracle: handler returns after >= 5 s and <= 12 s, the prober receives nothing - no byte, no FIN, no RST - before 5 s; non-trivial as in 'probes'; distinct by case")
 	defer rec.Flush()
 	rec.Require("real-tcp-socket", "real-tcp-socket:phantom-without-registrations", "late-segment")
 	defer aSilenceStdout()()
@@ -574,6 +737,7 @@ func TestVerif_C03_realtime(t *testing.T) {
 		if _, err := c03Setup(e, it.c); err != nil {
 			t.Fatalf("harness problem: %v", err)
 		}
+		c03UseGeo(e, it.c.Geo) // the environment is this case's own
 		it.e = e
 		wg.Add(1)
 		go func(it *item) {
@@ -591,7 +755,11 @@ func TestVerif_C03_realtime(t *testing.T) {
 				handed = srv
 			} else {
 				cli, srv = net.Pipe()
-				remote, _ := net.ResolveTCPAddr("tcp", it.c.Script.Remote)
+				remote, err := net.ResolveTCPAddr("tcp", it.c.Script.Remote)
+				if err != nil || remote.String() != it.c.Script.Remote {
+					it.key, it.msg = "harness", fmt.Sprintf("peer address %q of the case: %v / %v", it.c.Script.Remote, remote, err)
+					return
+				}
 				handed = c03PipeConn{Conn: srv, remote: remote}
 			}
 			defer cli.Close()
@@ -667,13 +835,17 @@ func TestVerif_C03_realtime(t *testing.T) {
 			if on == 0 {
 				cl = append(cl, "real-tcp-socket:phantom-without-registrations")
 			}
+		} else {
+			// the pipe's station end reports the case's drawn source address (a real socket pair is
+			// loopback whatever the case says)
+			cl = append(cl, c03PeerClasses(it.c, on)...)
 		}
 		rec.Case(on > 0 && it.c.Total >= 32, vh.Digest(it.c), it.c, cl...)
 		if it.key == "harness" {
 			t.Fatalf("harness problem: %s", it.msg)
 		}
 		if it.key != "" {
-			rec.Violation(t, it.key, it.c, "%s (real-time tier, probe kind %s, %d bytes)", it.msg, it.c.Kind, it.c.Total)
+			rec.Violation(t, it.key, it.c, "%s (real-time tier, probe kind %s, %d bytes, %s)", it.msg, it.c.Kind, it.c.Total, map[bool]string{true: "loopback TCP socket", false: "pipe reporting peer " + it.c.Script.Remote}[it.tcp])
 		}
 	}
 }
@@ -689,6 +861,8 @@ type c03SeqConn struct {
 	Len    int    `json:"len"`
 	ASN    int    `json:"asn"`
 	NoRegs bool   `json:"noregs"` // probe a phantom without registrations
+	Peer   string `json:"peer,omitempty"`       // source address "ip:port" of this connection (c03PeerGen); "" = the fixed public one
+	PeerClass string `json:"peer_class,omitempty"`
 	Reload string `json:"reload,omitempty"` // configuration reload (the SIGHUP path, OnReload) before this connection: "" | plain | blocklist-this (the phantom this connection goes to becomes a blocklisted phantom) | blocklist-other | bad-geoip (the new GeoIP files cannot be opened: that part of the reload is abandoned)
 }
 
@@ -744,6 +918,9 @@ func c03SeqRun(e *aEnv, c c03SeqCase) (key, msg string, classes []string) {
 		if sc.V6 {
 			s.Remote = "[2001:db8::77]:5555"
 		}
+		if sc.Peer != "" {
+			s.Remote = sc.Peer
+		}
 		data := aPayload(i*7+sc.Len, sc.Len, "c03seq")
 		first := vconn.Step{Data: vh.Hex(data)}
 		if sc.Reset == "during" {
@@ -772,6 +949,12 @@ func c03SeqRun(e *aEnv, c c03SeqCase) (key, msg string, classes []string) {
 			e.cm.PrintAndReset(e.rm.Logger)
 		}
 		conn := vconn.New(s)
+		if conn.RemoteAddr().String() != s.Remote {
+			return "harness", fmt.Sprintf("the scripted connection reports peer %s, the case says %s", conn.RemoteAddr(), s.Remote), classes
+		}
+		if sc.PeerClass != "" && (sc.Kind == "probe" || sc.Kind == "silent") {
+			classes = append(classes, "peer:"+sc.PeerClass)
+		}
 		conn.OnHook = func(string) { e.cm.PrintAndReset(e.rm.Logger) }
 		ph := aPhantom(0, sc.V6)
 		if sc.NoRegs {
@@ -815,7 +998,7 @@ func c03SeqRun(e *aEnv, c c03SeqCase) (key, msg string, classes []string) {
 		if sc.Kind == "probe" || sc.Kind == "silent" {
 			k, m, _ := c03Oracle(conn, ok, pan, dur)
 			if k != "" {
-				return k, fmt.Sprintf("connection %d of the sequence (%s): %s", i, sc.Kind, m), classes
+				return k, fmt.Sprintf("connection %d of the sequence (%s from %s): %s", i, sc.Kind, s.Remote, m), classes
 			}
 		} else {
 			if pan != nil {
@@ -850,9 +1033,9 @@ func c03ReloadConf(phantomBlocklist []string, geoipFile string) *cj.RegConfig {
 }
 
 func TestVerif_C03_sequence(t *testing.T) {
-	rec := vh.NewRec("C03", "sequence", "rapid-generated sequences of 2-6 connections on one connection manager: peers that close at once / after data / reset / stay silent, probes, IPv4 and IPv6, two source ASNs, phantoms with and without registrations, statistics epoch resets before / during / after a connection, configuration reloads through OnReload in between (plain; the probed phantom becomes a blocklisted phantom; GeoIP files that cannot be opened, against a GeoIP stand-in that fails every lookup once closed); every connection is judged (probes and silent peers by the C03 oracle, closing peers by 'returns, writes nothing'); non-trivial = a sequence with a statistics reset and a later probe; distinct by case")
+	rec := vh.NewRec("C03", "sequence", "rapid-generated sequences of 2-6 connections on one connection manager: peers that close at once / after data / reset / stay silent, probes, IPv4 and IPv6, two source ASNs, source addresses of every class of the 'probes' generator (three quarters of the connections; else the fixed public one), phantoms with and without registrations, statistics epoch resets before / during / after a connection, configuration reloads through OnReload in between (plain; the probed phantom becomes a blocklisted phantom; GeoIP files that cannot be opened, against a GeoIP stand-in that fails every lookup once closed); every connection is judged (probes and silent peers by the C03 oracle, closing peers by 'returns, writes nothing'); non-trivial = a sequence with a statistics reset and a later probe; distinct by case")
 	defer rec.Flush()
-	rec.Require("stats-reset:during", "conn:eof-at-once", "conn:probe", "reload:blocklist-this", "reload:bad-geoip")
+	rec.Require("stats-reset:during", "conn:eof-at-once", "conn:probe", "reload:blocklist-this", "reload:bad-geoip", "peer:public", "peer:private-use", "peer:loopback")
 	defer aSilenceStdout()()
 	e := aNewEnv(t)
 	run := func(tt vh.Fataler, c c03SeqCase) {
@@ -886,9 +1069,15 @@ func TestVerif_C03_sequence(t *testing.T) {
 		n := rapid.IntRange(2, 6).Draw(rt, "n")
 		var c c03SeqCase
 		for i := 0; i < n; i++ {
+			v6 := rapid.IntRange(0, 2).Draw(rt, "v6") == 0
+			peer, peerClass := "", ""
+			if rapid.IntRange(0, 3).Draw(rt, "drawpeer") > 0 {
+				peer, peerClass = c03PeerGen(rt, v6, "peer")
+			}
 			c.Conns = append(c.Conns, c03SeqConn{
 				Kind:   rapid.SampledFrom([]string{"probe", "eof-at-once", "eof-at-once", "data-eof", "data-reset", "silent"}).Draw(rt, "kind"),
-				V6:     rapid.IntRange(0, 2).Draw(rt, "v6") == 0,
+				V6:     v6,
+				Peer:   peer, PeerClass: peerClass,
 				Reset:  rapid.SampledFrom([]string{"", "", "before", "during", "during", "after"}).Draw(rt, "reset"),
 				Len:    rapid.SampledFrom([]int{1, 31, 32, 64, 100, 5000}).Draw(rt, "len"),
 				ASN:    rapid.IntRange(0, 1).Draw(rt, "asn"),
